@@ -79,6 +79,31 @@ pub broadcast axiom fn axiom_ed_basemul_to_montgomery(k: nat)
         #[trigger] ed_to_montgomery(ed_basemul(k)) == x25519_ladder(k, basepoint9()),
 ;
 
+// ---- group laws (assumed curve facts; used ONLY by the theorem `lemma_honest_signature_verifies`, not by any contract)
+/// [a+b]B = [a]B + [b]B
+pub axiom fn axiom_ed_basemul_add(a: nat, b: nat)
+    ensures
+        ed_basemul(a + b) == ed_add(ed_basemul(a), ed_basemul(b)),
+;
+
+/// [k](-[a]B) = -[k*a]B
+pub axiom fn axiom_ed_mul_neg_basemul(k: nat, a: nat)
+    ensures
+        ed_mul(k, ed_neg(ed_basemul(a))) == ed_neg(ed_basemul(k * a)),
+;
+
+/// abelian group: -P + (Q + P) = Q
+pub axiom fn axiom_ed_cancel(p: EdPoint, q: EdPoint)
+    ensures
+        ed_add(ed_neg(p), ed_add(q, p)) == q,
+;
+
+/// B generates the prime-order subgroup: [k]B has small order (is the identity) iff L | k
+pub axiom fn axiom_ed_basemul_small_order(k: nat)
+    ensures
+        ed_small_order(ed_basemul(k)) <==> k % ed25519_l() == 0,
+;
+
 // ---- Scalar ---------------------------------------------------------------------------------------
 /// `Scalar::from_bytes_mod_order_wide(&b)`: value = le(b) mod L
 pub assume_specification[ curve25519_dalek::scalar::Scalar::from_bytes_mod_order_wide ](input: &[u8; 64]) -> (s: curve25519_dalek::scalar::Scalar)
